@@ -137,6 +137,7 @@ class Harness:
         ]
         res = base.discharge(goals, [], extract)
         outcome = 'recursed' if gen[0] else 'terminal_or_cached'
+        base.witness(extract)      # vacuity guard: the path must be satisfiable
         return dict(outcome=outcome, goals=res)
 
 
